@@ -185,3 +185,20 @@ pub fn c04_twin_drop_cross() {
     let got = sc2(r.hi(), r.lo(), EMIN);
     assert!(got.is_some() && within(got.unwrap().sub(exact), exact, 106, B::times5));
 }
+
+/// TwoFloat * f64 with independent significand restrictions: hi has `mh` free leading fraction bits,
+/// lo has `ml`, the f64 factor `my` (lets the low word be full width while the two multiplied words stay short)
+pub fn mul_f64_cell_mixed(form: u8, d: i32, kx: i32, mh: u32, ml: u32, my: u32) {
+    let hi = any_in_binade_m(1023, mh);
+    let lo = any_in_binade_m(1023 - kx, ml);
+    let x = tf(hi, lo);
+    assume(spec_valid(x));
+    let y = any_in_binade_m(1023 - d, my);
+    let r = apply_tf_f64(MUL, form, x, y);
+    let exact = exact_dw_f64(x, y);
+    assert!(spec_valid(r));
+    let got = sc2(r.hi(), r.lo(), EMIN);
+    assert!(got.is_some());
+    assert!(within(got.unwrap().sub(exact), exact, 106, times2));
+    reached();
+}
